@@ -430,7 +430,7 @@ pub fn main(twins: &'static [Twin]) {
                 nontrivial.insert(fnv(format!("{}|{}", t.id, pstr).as_bytes()));
             }
             for tag in t.tags.split(',') {
-                if tag.starts_with("op:") || tag.starts_with("w:") || tag.starts_with("sp:") || tag.starts_with("big:") || tag.starts_with("wide:") || tag.starts_with("bounds:") || tag.starts_with("nest:") || tag.starts_with("pair:") || tag.starts_with("triple:") {
+                if tag.starts_with("op:") || tag.starts_with("w:") || tag.starts_with("sp:") || tag.starts_with("big:") || tag.starts_with("wide:") || tag.starts_with("bounds:") || tag.starts_with("nest:") || tag.starts_with("pair:") || tag.starts_with("triple:") || tag == "shadowed" {
                     *cover.entry(tag.to_string()).or_insert(0) += 1;
                 }
             }
